@@ -335,7 +335,11 @@ def run_real(ctx, C):
     if case.get("ffails"):
         one("fetch", fidx, [tuple(f) for f in case["ffails"]])
     one("fetch", fidx, [])
-    if all(covered(C.fmap, k) for _, k, _ in C.items):
+    # the checkout is judged when every entry has been given a remote and a cache (else an entry that
+    # nothing could fetch stops the checkout part-way, which is C09's subject)
+    if all(covered(C.fmap, k) for _, k, _ in C.items) and all(
+            resolve(C.fmap, k, "remote") is not None and resolve(C.fmap, k, "cache") is not None
+            for k, _ in C.entries(C.fmap)):
         ws = os.path.join(root, "ws")
         errs = []
         try:
